@@ -904,6 +904,7 @@ func (x *Exec) makeInterface(t types.Type, v Value) Value {
 	tag := w.TypeTag(t)
 	name := "box." + typeKey(t)
 	r := w.UF(name, SIface, vt)
+	x.u.boxed[r.S] = boxedVal{T: t, V: v}
 	un := w.UF("un"+name, vt.Sort, r)
 	if !x.pure {
 		x.assume(Eq(un, vt))
